@@ -16,13 +16,15 @@ def specs_for(chk, n, profile):
         dim = dims[i % len(dims)]
         opts = {'squeeze': rng.random() < .15, 'two_inputs': profile.get('two_inputs', True) and rng.random() < .15,
                 'tcat': profile.get('tcat', True)}
+        if excl_hint(profile, i):
+            opts['cat_tail'] = True
         if profile.get('reuse') and i % 4 == 1:
             opts['reuse'] = True
         if profile.get('unsupported') and i % profile.get('unsupported_every', 6) == 0:
             opts['unsupported'] = 'add_cat' if (i // 6) % 2 == 0 else 'dw_cat'
         excl = None
-        if profile.get('excl') and rng.random() < profile.get('p_excl', .35):
-            excl = rng.choice(['names', 'names', 'types', 'both'])
+        if profile.get('excl') and (rng.random() < profile.get('p_excl', .35) or opts.get('cat_tail')):
+            excl = rng.choice(['names', 'names', 'types', 'both']) if not opts.get('cat_tail') else rng.choice(['types', 'lastlin'])
         fc = profile.get('full_cost', False)
         tm = profile.get('train_mode', False)
         extra = list(profile.get('extra_costs', ()))
@@ -35,6 +37,10 @@ def specs_for(chk, n, profile):
                     'train_mode': (rng.random() < .5) if tm == 'mix' else bool(tm),
                     'extra_costs': extra, 'flags': profile.get('flags')})
     return out
+
+
+def excl_hint(profile, i):
+    return bool(profile.get('excl')) and i % 5 == 2
 
 
 def run_nets(chk, specs):
